@@ -1,3 +1,4 @@
+import BSModel.Model.WriterText
 import BSModel.Driver.Util
 import BSModel.Driver.C03
 import BSModel.Model.Adapter
@@ -177,7 +178,19 @@ def handleWriter (which void dup lines pre cont doc choices : String) : String :
   else
     (showDocs (normalise bcfg ds) (startInfos cfg c ds)).1
 
+/-- `wraw <void> <doc> <choices>` → `<WritableRaw 0/1>|<Writable 0/1>|<writeText>`; `rawok <name> <text>` → `rawTextOK` -/
+def handleWraw (void doc choices : String) : String :=
+  let voidS := (void.drop 5).toString
+  let voids := (splitNE "." voidS).map ofS
+  let iv : PStr → Bool := fun n => voidS == "*" || voids.contains n
+  let toks := splitNE ";" doc
+  let (ds, pos, _) := parseForest [] 0 toks.length toks
+  let c := mkChoices ds pos choices
+  s!"{bit (decide (BS.WriterText.WritableRaw iv c ds))}|{bit (decide (BS.WriterText.Writable iv c ds))}|{showL (BS.WriterText.writeText iv c ds)}"
+
 def handle : List String → String
+  | ["rawok", name, text] => bit (BS.WriterText.rawTextOK (fld name) (fld text))
+  | ["wraw", void, doc, choices] => handleWraw void doc choices
   | ["emit", void, dup, lines, pre, cont, doc, choices] => handleWriter "emit" void dup lines pre cont doc choices
   | ["norm", void, dup, lines, pre, cont, doc] => handleWriter "norm" void dup lines pre cont doc ""
   | [which, void, dup, lines, pre, cont, sevs] => handleWith which void dup lines pre cont "orig=-" sevs
